@@ -109,7 +109,7 @@ class Main(Part):
 
     def budget(self, tier):
         return {"quick": dict(examples=400, shards=2, seconds=80, workers=8),
-                "thorough": dict(examples=1500, shards=4, seconds=900, workers=32)}[tier]
+                "thorough": dict(examples=1500, shards=4, seconds=600, workers=32)}[tier]
 
     def strategy(self, tier):
         return c08_case(4 if tier == "quick" else 6)
